@@ -499,3 +499,43 @@ Proof.
   - split; intros ?; intros; [rewrite write_ptr_O|rewrite copy_struct_O]; exact I.
   - split; [apply awp_step; assumption|apply acs_step; assumption].
 Qed.
+
+Lemma sumN_le f g n : (forall i, (i < n)%nat -> f i <= g i) -> sumN f n <= sumN g n.
+Proof. induction n as [|n IH]; intros H; cbn [sumN]; [lia|]. specialize (IH ltac:(intros; apply H; lia)). specialize (H n ltac:(lia)). lia. Qed.
+Lemma grows_tot m m' : grows m m' -> tot m <= tot m'.
+Proof.
+  intros [Gn Gl]. unfold nsegs, zlen in Gn. rewrite (tot_upto m (length (bm_segs m'))) by lia. unfold tot.
+  apply sumN_le. intros i _. unfold lenf. apply Gl. lia.
+Qed.
+
+(* copy_alloc: bytes appended to the destination by a cross-message writePtr / copyStruct.
+   [tot dst' - tot dst] <= own padded copy + landing pad + 32 per pointer slot of the source
+   object + 5 x (source traversal budget consumed); the destination never shrinks and the
+   budget never grows.  For an object the reader handed out, own copy + pad <= readSize + 32
+   and 32 x slots <= 4 x readSize, so the whole copy appends at most
+   5 x (readSize src + budget consumed) + 32 bytes: no amplification beyond 5 T + 32. *)
+Theorem write_ptr_alloc f w dsid off src fc w' :
+  dok (w_dst w) -> msg_ok (w_src w) -> 0 <= w_src_rl w -> region_ok (w_dst w) dsid off 8 ->
+  wf_ptr (w_src w) src -> shape_ok src ->
+  write_ptr f true w dsid off InSrc src fc = Ok w' ->
+  0 <= w_src_rl w' <= w_src_rl w /\
+  0 <= tot (w_dst w') - tot (w_dst w) <= wcost src + 32 * slots src + 5 * (w_src_rl w - w_src_rl w') /\
+  tot (w_dst w') - tot (w_dst w) <= 5 * (readSize src + (w_src_rl w - w_src_rl w')) + 32.
+Proof.
+  intros Hd Hm Hr Hreg Hs Hsh E. destruct (copy_alloc_all f) as [H _].
+  specialize (H w dsid off src fc Hd Hm Hr Hreg Hs Hsh). rewrite E in H. destruct H as [(D & G & S & R) P].
+  pose proof (grows_tot _ _ G). pose proof (wcost_le _ src Hm Hs Hsh). pose proof (slots_le_readSize _ src Hm Hs).
+  unfold Phi in P. repeat split; lia.
+Qed.
+
+Theorem copy_struct_alloc f w dst src w' :
+  dok (w_dst w) -> msg_ok (w_src w) -> 0 <= w_src_rl w -> dst_ok (w_dst w) dst ->
+  wf_struct (w_src w) src -> p_valid src = true ->
+  copy_struct f true w dst InSrc src = Ok w' ->
+  0 <= w_src_rl w' <= w_src_rl w /\
+  0 <= tot (w_dst w') - tot (w_dst w) <= 32 * PointerCount (p_size src) + 5 * (w_src_rl w - w_src_rl w').
+Proof.
+  intros Hd Hm Hr Hdst Hs V E. destruct (copy_alloc_all f) as [_ H].
+  specialize (H w dst src Hd Hm Hr Hdst Hs). rewrite E, V in H. destruct H as [(D & G & S & R) P].
+  pose proof (grows_tot _ _ G). unfold Phi in P. repeat split; lia.
+Qed.
